@@ -229,12 +229,12 @@ class Run:
     def enabled(self, lab) -> bool:
         k = lab[0]
         if k == 'arrive':
-            return lab[1] not in self.threads and self.closer is None
+            return lab[1] not in self.threads
         if k == 'die':
             t = lab[1]
             return t in self.threads and self.state.get(t) == 'idle' and t not in self.dead
         if k == 'close':
-            return self.closer is None and all(self.state.get(t) == 'idle' for t in self.threads)
+            return self.closer is None
         if k == 'step':
             s = self.state.get(lab[1])
             if not isinstance(s, tuple):
@@ -438,6 +438,8 @@ def oracle_thread(r) -> list:
         bad.append(('thread:close-hangs', 'close() never returned although every registered thread ended'))
     for t in sorted(reg_at):
         n = sum(1 for (_, u, _) in cbs if u == t)
+        if n == 0 and close_called is not None and reg_at[t] > close_called:
+            continue        # registered after close() was called: outside the contract of close()
         if n == 0:
             if set_changed:
                 bad.append(('thread:set-changed-size',
@@ -555,33 +557,49 @@ def merges(seqs):
             yield [s[0]] + m
 
 
-# the witnesses of Props/C18.v (refuted theorems), replayed on the real class on every run
+# the three schedules on which the unrepaired thread.py violated the property (also in corpus/C18);
+# written for the old access sequence, they are still schedules of the repaired code
 WITNESS = {
     'iteration': dict(raises=[], schedule=[S('M'), S('M'), ['arrive', 1], S(1), S(1), S('M')]),
     'lost_update': dict(raises=[], schedule=[['arrive', 1], S(1), S(1), ['die', 1]] + [S('M')] * 8
                         + [['arrive', 2], S(2), S(2), S('M')]),
     'exit_race': dict(raises=[], schedule=[S('M')] * 5 + [['arrive', 1], S(1), S(1), ['close'], S('C'), S('C'), S('C'), S('M')]),
+    # the same races aimed at the repaired code: the registering thread tries while the monitor is
+    # inside the scan / between `-` and the store / between the truth test and `_closed`
+    'iteration_locked': dict(raises=[], schedule=[S('M')] * 3 + [['arrive', 1], S(1), S(1), S('M'), S(1)]),
+    'lost_update_locked': dict(raises=[], schedule=[['arrive', 1], S(1), S(1), S(1), S(1), ['die', 1]] + [S('M')] * 8
+                               + [['arrive', 2], S(2), S(2), S('M'), S(2), S('M'), S(2)]),
+    'exit_race_locked': dict(raises=[], schedule=[S('M')] * 14 + [['arrive', 1], S(1), ['close'], S('C'), S('C'), S('C'),
+                                                                  S('M'), S(1), S('M')]),
 }
 
 
-def exhaustive_schedules(k1, k2, d1s, kc):
-    """(a) one thread: every placement of arrive/LoadActive/SetAdd/die among k1 monitor steps;
-       (b) thread 1 registered first and ending after d1 monitor steps, thread 2: every placement of
-           arrive/LoadActive/SetAdd among k2 monitor steps;
-       (c) one thread + close(): every placement of arrive/LoadActive/SetAdd and of the block
-           close();LoadActive;Contains;StoreClosed among kc monitor steps."""
-    t1 = [['arrive', 1], S(1), S(1), ['die', 1]]
-    for m in merges([[S('M')] * k1, t1]):
-        yield 'one', [], m
-    t2 = [['arrive', 2], S(2), S(2)]
+def exhaustive_schedules(k1, k2, d1s, kc, kf):
+    """register() = arrive; LockAcquire; [LoadActive; SetAdd; LockRelease]  (the bracket is one block:
+    while a thread holds the lock the monitor can only do lock-free accesses or wait).
+       (a) one thread: every placement of arrive / LockAcquire / block among k1 monitor steps;
+       (b) thread 1 registered first and ending after d1 monitor steps, thread 2: every placement among k2;
+       (c) one thread + close(): every placement of arrive / LockAcquire / block and of the block
+           close();LoadActive;Contains;StoreClosed among kc monitor steps;
+       (f) one thread, all five events separately (+ die) among kf monitor steps."""
+    BL = ('BLOCK',)
+
+    def expand(m, t):
+        i = m.index(BL)
+        return m[:i] + [S(t), S(t), S(t)] + m[i + 1:]
+    for m in merges([[S('M')] * k1, [['arrive', 1], S(1), BL]]):
+        yield 'one', [], expand(m, 1)
     for d1 in d1s:
-        pre = [['arrive', 1], S(1), S(1)] + [S('M')] * d1 + [['die', 1]]
-        for m in merges([[S('M')] * (k2 - d1), t2]):
-            yield 'two', [], pre + m
+        pre = [['arrive', 1], S(1), S(1), S(1), S(1)] + [S('M')] * d1 + [['die', 1]]
+        for m in merges([[S('M')] * (k2 - d1), [['arrive', 2], S(2), BL]]):
+            yield 'two', [], pre + expand(m, 2)
     blk = ('CLOSE',)
-    for m in merges([[S('M')] * kc, [['arrive', 1], S(1), S(1), blk]]):
+    for m in merges([[S('M')] * kc, [['arrive', 1], S(1), BL, blk]]):
+        m = expand(m, 1)
         i = m.index(blk)
         yield 'close', [], m[:i] + [['close'], S('C'), S('C'), S('C')] + m[i + 1:]
+    for m in merges([[S('M')] * kf, [['arrive', 1], S(1), S(1), S(1), S(1), ['die', 1]]]):
+        yield 'one-fine', [], m
 
 
 def random_schedule(rng, nthreads, length):
@@ -936,17 +954,17 @@ def correspond(ctx) -> Corr:
     corr = Corr()
     corr.rule = ('thread half: schedules (Arrive/Step who/Die/CloseCall, + deterministic drain) executed on the REAL '
                  'ThreadDoneCallback by the opcode scheduler, per-step observation (access executed, callbacks, monitor '
-                 'exit, close result) and final _active compared with DoneCb/Model.v; the 3 witness schedules of '
-                 'Props/C18.v, exhaustive placements for 1-2 registering threads (+close), random beyond, and an '
+                 'exit, close result, lock waits) and final _active compared with DoneCb/Model.v; the former violation '
+                 'schedules (corpus), exhaustive placements for 1-2 registering threads (+close), random beyond, and an '
                  'every-opcode mode. task half: real TaskDoneCallback under all completion orders vs DoneCb/Task.v. '
                  'distinct = distinct (raises, schedule); non-trivial = a register access executed after the monitor '
                  'started looping, or a callback fired')
     env = load_skeleton()
     rng = ctx.rng
     quick = ctx.tier == 'quick'
-    k1, k2, d1s, kc, nrand, nfine, tmax, trand = (10, 12, [0], 8, 300, 40, 4, 150) if quick else \
-        (14, 16, [0, 2, 3, 4, 5, 7, 9, 12], 12, 6000, 600, 5, 3000)
-    deadline = time.time() + (28 if quick else 420)
+    k1, k2, d1s, kc, kf, nrand, nfine, tmax, trand = (14, 16, [0], 7, 4, 200, 40, 4, 150) if quick else \
+        (34, 24, [0, 4, 6, 9, 12], 14, 9, 6000, 600, 5, 3000)
+    deadline = time.time() + (45 if quick else 480)
 
     def jobs():
         for n, w in WITNESS.items():
@@ -955,7 +973,7 @@ def correspond(ctx) -> Corr:
             j = json.loads(p.read_text())
             if j.get('half') == 'thread':
                 yield 'corpus', j.get('raises', []), j['schedule']
-        yield from exhaustive_schedules(k1, k2, d1s, kc)
+        yield from exhaustive_schedules(k1, k2, d1s, kc, kf)
         for _ in range(nrand):
             raises, s = random_schedule(rng, rng.randint(1, 4), rng.randint(5, 60))
             yield 'random', raises, s
@@ -965,16 +983,15 @@ def correspond(ctx) -> Corr:
     n_thr = _compare_thread(ctx, corr, runs + fine)
     corr.extra['thread_runs'] = len(runs)
     corr.extra['every_opcode_runs'] = len(fine)
-    corr.extra['exhaustive_bound'] = (f'1 thread: all placements of arrive/LoadActive/SetAdd/die among {k1} monitor accesses; '
-                                      f'2 threads: thread 1 registered, ending after d1 in {d1s} monitor accesses, all placements '
-                                      f'of thread 2 arrive/LoadActive/SetAdd among {k2}; 1 thread + close(): all placements among {kc}')
-    # witnesses must show what Props/C18.v says they show
-    want = {'witness:iteration': 'thread:set-changed-size', 'witness:lost_update': 'thread:lost-update',
-            'witness:exit_race': 'thread:exit-race'}
+    corr.extra['exhaustive_bound'] = (
+        f'register() = arrive / LockAcquire / [LoadActive;SetAdd;LockRelease]; 1 thread: all placements of the 3 pieces '
+        f'among {k1} monitor accesses (one loop iteration = 16); 2 threads: thread 1 registered, ending after d1 in {d1s}, '
+        f'all placements of thread 2 among {k2}; 1 thread + close() block: all placements among {kc}; 1 thread, all 5 '
+        f'accesses + die separately among {kf}')
     for r in runs:
-        if r['kind'] in want:
-            got = [s for s, _ in oracle_thread(r)]
-            corr.extra.setdefault('witness_on_real_code', {})[r['kind']] = got
+        if r['kind'].startswith('witness:') or r['kind'] == 'corpus':
+            corr.extra.setdefault('former_violation_schedules', {})[r['kind'] + ':' + str(len(r['labels']))] = \
+                [s for s, _ in oracle_thread(r)] or 'passes'
     # task half
     tcases = []
     loop = asyncio.new_event_loop()
@@ -1016,7 +1033,7 @@ def search(ctx, broken) -> list:
     rng = ctx.rng
 
     def jobs():
-        yield from exhaustive_schedules(14, 16, [0, 2, 4, 6, 9], 12)
+        yield from exhaustive_schedules(24, 24, [0, 4, 6, 9], 12, 7)
         for _ in range(4000):
             raises, s = random_schedule(rng, rng.randint(1, 4), rng.randint(5, 80))
             yield 'random', raises, s
